@@ -30,9 +30,10 @@ type pairSt struct {
 const unknownPid = 999999
 
 type traceOut struct {
-	coq  []string
-	desc []string
-	cbF  [][2]int
+	coq       []string
+	desc      []string
+	cbF       [][2]int
+	ambiguous bool // a callback's Close overlapped a Publish call in real time: the visited set is not observable
 }
 
 func (o *traceOut) add(coq, desc string) {
@@ -87,14 +88,37 @@ func annotate(ex execResult) traceOut {
 	type tev struct {
 		s, p int
 		t    time.Duration
+		kind int           // 0 OnTimeout ran; 1 a callback's Subscriber.Close returned; 2 a callback's Publication.Close returned
+		t0   time.Duration // when that Close call began
 	}
 	var touts []tev
+	starts := map[[3]int]time.Duration{}
 	for _, e := range ex.events {
 		switch e.kind {
 		case evOnTimeout:
-			touts = append(touts, tev{e.sid, pidOf(e.m), e.t})
+			touts = append(touts, tev{s: e.sid, p: pidOf(e.m), t: e.t})
 		case evOnFiltered:
 			out.cbF = append(out.cbF, [2]int{e.sid, pidOf(e.m)})
+		case evCloseStart:
+			starts[[3]int{e.sid, e.m, e.aux}] = e.t
+		case evCloseEnd:
+			touts = append(touts, tev{s: e.sid, p: pidOf(e.m), t: e.t, kind: e.aux, t0: starts[[3]int{e.sid, e.m, e.aux}]})
+		}
+	}
+	// a Close issued by a callback while another Publish call is inside its Range: which subscribers that
+	// call still visits cannot be observed; such a run is discarded (timing, not a verdict)
+	{
+		np := 0
+		for i, st := range ex.stims {
+			if st.Op != opPub {
+				continue
+			}
+			for _, e := range touts {
+				if e.kind != 0 && (e.p != np || e.kind == 2) && e.t0 <= ex.res[i].tEnd && ex.res[i].tStart <= e.t {
+					out.ambiguous = true
+				}
+			}
+			np++
 		}
 	}
 	sort.SliceStable(touts, func(i, j int) bool { return touts[i].t < touts[j].t })
@@ -108,6 +132,7 @@ func annotate(ex execResult) traceOut {
 	delivCount := map[int]int{}
 	pubsSeen := 0
 
+	var closeTail func(s int)
 	findPair := func(p, s int) *pairSt {
 		for _, q := range pairs {
 			if q.p == p && q.s == s {
@@ -135,6 +160,18 @@ func annotate(ex execResult) traceOut {
 			e := touts[ti]
 			ti++
 			emitTick(e.t)
+			if e.kind != 0 {
+				// Close called from inside a callback (an environment label like any other Close)
+				for s := range subs {
+					if closed[s] || (e.kind == 1 && s != e.s) {
+						continue
+					}
+					closed[s] = true
+					out.add(fmt.Sprintf("XCloseSub %d", s), fmt.Sprintf("callback of s%d (p%d) closes s%d", e.s, e.p, s))
+					closeTail(s)
+				}
+				continue
+			}
 			if q := findPair(e.p, e.s); q != nil && q.state == 0 {
 				q.state = 2
 			}
@@ -160,7 +197,7 @@ func annotate(ex execResult) traceOut {
 			}
 		}
 	}
-	closeTail := func(s int) {
+	closeTail = func(s int) {
 		for _, q := range pairs {
 			if q.s == s && q.state == 0 {
 				q.state = 3
@@ -231,9 +268,15 @@ func annotate(ex execResult) traceOut {
 			}
 		case opCloseSub:
 			out.add(fmt.Sprintf("XCloseSub %d", st.S), fmt.Sprintf("close s%d", st.S))
-			closedNow = sr.closedSubs
+			if !closed[st.S] {
+				closedNow = []int{st.S}
+			}
 		case opClosePub:
-			closedNow = sr.closedSubs
+			for s := range subs {
+				if !closed[s] {
+					closedNow = append(closedNow, s)
+				}
+			}
 			if len(closedNow) == 0 {
 				out.add("XTick 0", "closepub (no subscriber left)")
 			}
@@ -252,7 +295,7 @@ func annotate(ex execResult) traceOut {
 		for _, s := range closedNow {
 			closeTail(s)
 		}
-		if ex.blocked && i == len(ex.stims)-1 {
+		if ex.blocked && !ex.cbBlocked && i == len(ex.stims)-1 {
 			break
 		}
 		flushTimeouts(sr.mk.t)
